@@ -16,24 +16,33 @@ from .c11 import cmp_repr
 ID = 'C19'
 TITLE = 'deepcopy / pickle reproduce any tree'
 RULE = ('(A) one parsed document over the full tag vocabulary (all node kinds incl. structural ones, flags and metadata on every kind, yaml '
-        'aliases of containers and function / path nodes) and '
+        'aliases of nodes of every kind) and '
         '(B) trees merged from 1-3 such documents without structural kinds, substituted as older and as newer stage against random tagged '
-        'stages X, Y and evaluated; copies by copy.deepcopy and by a pickle round trip; then a mutation of copy or original; '
+        'stages X, Y and evaluated, (C) a file including a 2-3 document file, preprocessed but not flattened (stream nodes), flattened after copying / editing; copies by copy.deepcopy and by a pickle round trip; then a mutation of copy or original; '
         'non-trivial = depth >=2 with >=1 explicit and >=1 inherited flag, or a function/path node with children; distinct = hash of the case')
 BUDGET = {'quick': (4, 250), 'thorough': (16, 4000)}
 SHRINK_CAP = {'quick': 300, 'thorough': 3000}
-ASSUMPTIONS = ['documents in which an aliased node is adopted by parents handing down different inherited flags are skipped (one node object holds one set of inherited flags; the original then depends on adoption order)',
-               'the copy must have the same sharing pattern as the original (paths holding one node object), ' 
+ASSUMPTIONS = ['the copy must have the same sharing pattern as the original (paths holding one node object), ' 
                'node-by-node equality covers kinds, content, priority, safety, targets / reference points / file names, metadata and the public '
                'delete / explicit_delete / allow_new flags (any difference there is observable by some later merge); behaviour is compared as well']
 
 
 @st.composite
 def _case(draw):
-    fam = draw(st.sampled_from(['A', 'B', 'B']))
+    fam = draw(st.sampled_from(['A', 'B', 'B', 'A', 'B', 'B', 'C']))
     case = {'fam': fam, 'mut': [draw(st.integers(0, 20)), draw(st.sampled_from(['set', 'del', 'md', 'append'])), draw(st.booleans())]}
     if fam == 'A':
         case['docs'] = [draw(S.full_doc(allow_structural=True, aliases='all'))]
+    elif fam == 'C':
+        # a file that includes a multi-document file, preprocessed but not flattened yet: the include is a stream node holding the documents
+        main = draw(S.tagged_stages(min_stages=1, max_stages=1, keys=S.MERGE_KEYS_NONEG, neg=False, density=4))[0]
+        main['items'] = [kv for kv in main['items'] if kv[0] not in ('inc', 'grp')]
+        main['flow'] = False
+        main['items'].insert(draw(st.integers(0, len(main['items']))), ['inc', tdoc.raw('inc_a.yaml', '!include')])
+        if draw(st.booleans()):
+            main['items'].append(['grp', tdoc.mp([('sub', tdoc.raw('inc_a.yaml', '!include'))], **({'prio': -1} if draw(st.booleans()) else {}))])
+        case['docs'] = [main]
+        case['inc'] = draw(S.tagged_stages(min_stages=2, max_stages=3, keys=S.MERGE_KEYS_NONEG, neg=False, density=4))
     else:
         n = draw(st.sampled_from([1, 2, 2, 3]))
         case['docs'] = [draw(S.full_doc(allow_structural=False, aliases='all')) for _ in range(n)]
@@ -143,9 +152,46 @@ def _eval_outcome(tree):
 COPIERS = {'deepcopy': copy.deepcopy, 'pickle': lambda t: pickle.loads(pickle.dumps(t))}
 
 
+def preprocessed(folder):
+    """main.yaml of the folder parsed and preprocessed (includes read), not flattened: its !include nodes are streams of documents"""
+    import os
+    from awesomeyaml.builder import Builder
+    b = Builder()
+    b.add_source(os.path.join(folder, 'main.yaml'))
+    b.preprocess()
+    return b.stages[0]
+
+
+def finish(tree):
+    """what Builder.build() goes on to do with a preprocessed tree: flatten (the streams merge their documents)"""
+    from awesomeyaml.builder import Builder
+    b = Builder()
+    b.stages = [tree]
+    b.flatten()
+    return b.stages[0]
+
+
+def streams(tree):
+    return [n for n in tree.ayns.nodes(include_self=True) if type(n).__name__ == 'StreamNode']
+
+
 def run_case(case):
+    if case['fam'] != 'C':
+        return _run_case(case, None)
+    import tempfile, os
+    with tempfile.TemporaryDirectory(prefix='vf-c19-') as folder:
+        with open(os.path.join(folder, 'main.yaml'), 'w', encoding='utf-8') as f:
+            f.write(tdoc.render(case['docs'][0]))
+        with open(os.path.join(folder, 'inc_a.yaml'), 'w', encoding='utf-8') as f:
+            f.write(tdoc.render_stream(case['inc']))
+        return _run_case(case, folder)
+
+
+def _run_case(case, folder):
     texts = [tdoc.render(d) for d in case['docs']]
     src = '\nsources:\n' + '\n'.join(texts)
+    if folder:
+        src += '\nincluded file inc_a.yaml:\n' + tdoc.render_stream(case['inc'])
     fam = case['fam']
     labels = {'fam=' + fam, 'stages=%d' % len(texts)}
 
@@ -153,6 +199,8 @@ def run_case(case):
         labels.add('aliased-node-under-differently-flagged-parents')
 
     def make():
+        if fam == 'C':
+            return preprocessed(folder)
         return parse_one(texts[0]) if fam == 'A' else merged(texts)
     try:
         t0 = make()
@@ -216,6 +264,34 @@ def run_case(case):
         if snapshot(other) != before:
             raise Violation(f'C19: mutating the {"copy" if on_copy else "original"} ({how}) changed the {"original" if on_copy else name + " copy"}{src}')
         labels.add('mut=' + how)
+        if fam == 'C':
+            # the copy of a preprocessed tree goes on like the original: flattened it gives the same tree; a document of a stream edited in the
+            # copy shows in what the copy becomes (exactly as the same edit of an original does) and nowhere else
+            def edited(tree):
+                ss = streams(tree)
+                if ss:
+                    s_ = ss[idx % len(ss)]
+                    if not all(a is b for a, b in zip(s_.ayns.children(), s_.stages)) or len(s_.stages) != s_.ayns.children_count():
+                        raise Violation(f'C19: a stream node of the {name} copy does not hold the documents its builder is going to merge{src}')
+                    doc = s_[(idx // 3) % len(s_)]
+                    if isinstance(doc, dict):
+                        doc['mutated_key'] = 777
+                return tree
+            ref_plain, got_plain = _outcome(lambda: finish(make())), _outcome(lambda: finish(cp(make())))
+            if ref_plain != got_plain:
+                raise Violation(f'C19: flattening the {name} copy of the preprocessed tree gives {got_plain}, the original {ref_plain}{src}')
+            o2 = make()
+            c2 = cp(o2)
+            got_edit = _outcome(lambda: finish(edited(c2)))
+            ref_edit = _outcome(lambda: finish(edited(make())))
+            if got_edit != ref_edit:
+                raise Violation(f'C19: a document of an included stream edited in the {name} copy: flattened it gives {got_edit}, the same edit of an '
+                                f'original gives {ref_edit}{src}')
+            after = _outcome(lambda: finish(o2))
+            if after != ref_plain:
+                raise Violation(f'C19: after the {name} copy was edited and flattened the original flattens to {after} instead of {ref_plain}{src}')
+            labels.add('stream-' + ref_plain[0])
+            nontrivial = nontrivial or ref_plain[0] == 'ok'
         if fam == 'B':
             xt, yt = tdoc.render(case['X']), tdoc.render(case['Y'])
             ctx = f'{src}\nX:\n{xt}\nY:\n{yt}'
